@@ -47,7 +47,7 @@ NONE = {"n": 0, "d": 0}
 BAD = {"n": 0, "d": -1}  # a value that equals nothing
 RACE_ID = "c08-race"
 OTHER_RACE_ID = "c08-other"
-NOAP = ["", "", 0, 0, 0, 0]
+NOAP = ["", "", 0, 0, 0, 0, 0, 0]  # <<metric, task, n, a0, step, fails, number of outliers, gap>>
 
 
 FOREIGN_OP = "dependent-op"  # operation type of a dependent timing (composite operation): not the task's own type
@@ -56,8 +56,26 @@ FOREIGN_OP = "dependent-op"  # operation type of a dependent timing (composite o
 def op_types(sched, rnd=None):
     """Operation type of every task. Tasks sharing one type is the dangerous case (a dropped task filter shows)."""
     if rnd is None or rnd.random() < 0.6:
-        return {name: "shared-op" for name, _ in sched}
-    return {name: "type-of-" + name for name, _ in sched}
+        return {name: "shared-op" for name, *_ in sched}
+    return {name: "type-of-" + name for name, *_ in sched}
+
+
+def with_op_names(sched, mode):
+    """Schedule entries [task, include-in-reporting] -> [task, include-in-reporting, operation name].
+    mode 0: the operation of a task is NAMED like the next task of the schedule (task search-cold on operation search, then a
+    task search): a lookup of per-task results by task name must not be caught by an operation name; mode 1: one operation
+    shared by all tasks (index #1 / index #2 on operation index); mode 2: an operation of its own per task."""
+    names = [e[0] for e in sched]
+    out = []
+    for n, e in enumerate(sched):
+        if mode == 0:
+            opn = names[n + 1] if n + 1 < len(names) else "op-" + e[0]
+        elif mode == 1:
+            opn = "shared-operation"
+        else:
+            opn = "op-" + e[0]
+        out.append([e[0], bool(e[1]), opn])
+    return out
 
 
 # ---------------------------------------------------------------------------------------------------
@@ -138,12 +156,13 @@ class Impl:
 
     def track_for(self, sched, ot=None):
         ot = ot or op_types(sched)
-        key = tuple((str(n), bool(r), ot[n]) for n, r in sched)
+        sched = [list(e) + ["op-" + e[0]] if len(e) == 2 else list(e) for e in sched]
+        key = tuple((str(n), bool(r), ot[n], str(opn)) for n, r, opn in sched)
         if key not in self._tracks:
             track = self.track
             tasks = []
-            for n, (name, report, typ) in enumerate(key):
-                op = track.Operation(name="op-" + name, operation_type=typ, params={} if report else {"include-in-reporting": False})
+            for n, (name, report, typ, opn) in enumerate(key):
+                op = track.Operation(name=opn, operation_type=typ, params={} if report else {"include-in-reporting": False})
                 task = track.Task(name=name, operation=op)
                 # alternate plain tasks and parallel elements: the calculator walks both
                 tasks.append(task if n % 2 == 0 else track.Parallel([task]))
@@ -168,13 +187,15 @@ class Impl:
             plugin_params={},
         )
 
-    def load_store(self, S, u, ot, rnd, normal_only=False):
+    def load_store(self, S, u, ot, rnd, normal_only=False, opn=None):
         metrics = self.metrics
         store = metrics.metrics_store(self.cfg, read_only=False, track="verif-track", challenge="verif-challenge", car=["defaults"])
         recs = [tuple(r) for r in S["recs"]]
-        m, t, n, a0, step, fails = S["ap"]
+        opn = opn or {}
+        m, t, n, a0, step, fails, tn, gap = S["ap"]
         for i in range(n):
-            recs.append((m, t, True, True, a0 + i * step, i >= fails, i))
+            tail = (i - (n - tn) + 1) * gap if i >= n - tn else 0  # the largest tn values are outliers (heavy tail)
+            recs.append((m, t, True, True, a0 + i * step + tail, i >= fails, i))
         if normal_only:
             recs = [r for r in recs if r[3]]
         rnd.shuffle(recs)
@@ -192,7 +213,7 @@ class Impl:
                     v * u,
                     unit=UNIT[m],
                     task=t,
-                    operation="op-" + t,
+                    operation=opn.get(t, "op-" + t),
                     operation_type=ot.get(t, "shared-op") if own else FOREIGN_OP,
                     sample_type=st,
                     absolute_time=1000 + idx,
@@ -224,10 +245,16 @@ class Impl:
             store.put_value_cluster_level("disk_usage_" + name, (n + k) % 4, unit="byte", meta_data={"index": "idx", "field": "f%d" % n}, absolute_time=1, relative_time=0)
 
     # -- projections of what the implementation returned onto the result structure of Stats.tla
-    def project(self, gs, sched, u):
+    def project(self, gs, sched, u, via):
+        """via = "entries": the entry of op_metrics whose task is the task (how the summary report walks the results that
+        calculate_results returned); via = "metrics": GlobalStats.metrics(task), the access path of compare on results read
+        back from race.json."""
         ops = []
-        for name, _ in sched:
-            r = gs.metrics(name)
+        for name, *_ in sched:
+            if via == "metrics":
+                r = gs.metrics(name)
+            else:
+                r = next((e for e in gs.op_metrics if e.get("task") == name), None)
             if r is None:
                 ops.append(
                     {"p": False, "tp": _no_summary(), "lat": _empty_table(), "svc": _empty_table(), "proc": _empty_table(), "er": dict(NONE), "dur": dict(NONE)}
@@ -257,7 +284,7 @@ class Impl:
     def direct(self, store, sched, u, ot):
         normal = self.metrics.SampleType.Normal
         out = []
-        for name, _ in sched:
+        for name, *_ in sched:
             row = []
             for m in TASK_METRICS:
                 pct = store.get_percentiles(REAL_NAME[m], task=name, operation_type=ot[name], sample_type=normal, percentiles=list(PLIST))
@@ -282,15 +309,17 @@ class Impl:
         diff = []
         try:
             loaded = metrics.GlobalStats(self.race_store.find_by_race_id(RACE_ID).results)
-            RL = self.project(loaded, sched, u)
+            RL = self.project(loaded, sched, u, "metrics")
             diff += deep_diff(original.as_dict(), loaded.as_dict(), "id")
+            if [e.get("task") for e in original.op_metrics] != list(loaded.tasks()):
+                diff.append("id.tasks()")
         except Exception as ex:  # pylint: disable=broad-except
             RL = {"ops": [], "g": {k: {"n": 0, "d": -1} for k in GATTR}}
             diff.append("find_by_race_id:%s" % type(ex).__name__)
         listed = [r for r in self.race_store.list() if r.race_id == RACE_ID]
         if len(listed) == 1:
             ls = metrics.GlobalStats(listed[0].results)
-            RS = self.project(ls, sched, u)
+            RS = self.project(ls, sched, u, "metrics")
             diff += deep_diff(original.as_dict(), ls.as_dict(), "list")
         else:
             RS = {"ops": [], "g": {k: {"n": 0, "d": -1} for k in GATTR}}
@@ -301,14 +330,15 @@ class Impl:
         """Executes one store item on the real code and fills in the observation."""
         S, sched, u = item["S"], item["sched"], item["u"]
         ot = item.setdefault("ot", op_types(sched))
+        opn = {e[0]: e[2] for e in sched}
         t, ch = self.track_for(sched, ot)
-        store = self.load_store(S, u, ot, rnd)
+        store = self.load_store(S, u, ot, rnd, opn=opn)
         if item.get("tele") is not None:
             self.add_telemetry(store, item["tele"])
         race = self.new_race(t, ch)
         try:
             res = self.metrics.calculate_results(store, race)
-            item["R"] = self.project(res, sched, u)
+            item["R"] = self.project(res, sched, u, "entries")
             item["D"] = self.direct(store, sched, u, ot)
         except Exception as ex:  # pylint: disable=broad-except
             # the implementation raises on a valid store: there are no results at all; recorded as results that equal nothing
@@ -320,9 +350,9 @@ class Impl:
         race.add_results(res)
         item["RL"], item["RS"], item["diff"] = self.persist_and_reload(race, res, sched, u)
         if any(not r[3] for r in S["recs"]):
-            store_n = self.load_store(S, u, ot, rnd, normal_only=True)
+            store_n = self.load_store(S, u, ot, rnd, normal_only=True, opn=opn)
             res_n = self.metrics.calculate_results(store_n, self.new_race(t, ch))
-            item["RN"] = self.project(res_n, sched, u)
+            item["RN"] = self.project(res_n, sched, u, "entries")
             item["DN"] = self.direct(store_n, sched, u, ot)
         else:
             # no warm-up record: the normal-only store is the store itself (another insertion order adds nothing here)
@@ -337,13 +367,13 @@ class Impl:
         sched = []
         if doc["hasOps"]:
             d["op_metrics"] = []
+            sched = with_op_names([["t%d" % (n + 1), True] for n in range(len(doc["ops"]))], 0)
             for n, op in enumerate(doc["ops"]):
-                name = "t%d" % (n + 1)
-                sched.append([name, True])
+                name = sched[n][0]
                 d["op_metrics"].append(
                     {
                         "task": name,
-                        "operation": "op-" + name,
+                        "operation": sched[n][2],
                         "throughput": {"min": real(op["tp"]["min"]), "mean": real(op["tp"]["mean"]), "median": real(op["tp"]["med"]), "max": real(op["tp"]["max"]), "unit": None if op["tp"]["unit"] == "none" else op["tp"]["unit"]},
                         "latency": _real_table(op["lat"]),
                         "service_time": _real_table(op["svc"]),
@@ -354,7 +384,7 @@ class Impl:
                 )
         item["sched"] = sched
         gs = self.metrics.GlobalStats(d)
-        item["R"] = self.project(gs, sched, 1)
+        item["R"] = self.project(gs, sched, 1, "entries")
         t, ch = self.track_for((("t1", True),))
         race = self.new_race(t, ch)
         race.add_results(gs)
@@ -447,11 +477,11 @@ def dump_inputs(path):
 def random_store(rnd, big):
     """A seeded random store that is not derived from the model's state space: more tasks, wider values."""
     ntasks = rnd.randint(1, 3)
-    sched = [["t%d" % (i + 1), rnd.random() < 0.75] for i in range(ntasks)]
+    sched = with_op_names([["t%d" % (i + 1), rnd.random() < 0.75] for i in range(ntasks)], rnd.choice([0, 0, 1, 2]))
     recs = []
     ap = list(NOAP)
     vmax = rnd.choice([1, 3, 10, 1000, 10000])
-    for name, _ in sched:
+    for name, *_ in sched:
         for m in TASK_METRICS:
             if rnd.random() < 0.25:
                 continue
@@ -475,7 +505,9 @@ def random_store(rnd, big):
         name = sched[0][0]
         recs = [r for r in recs if not (r[0] == m and r[1] == name and r[2] and r[3])]
         n = rnd.choice([1, 2, 9, 10, 99, 100, 999, 1000, rnd.randint(1, 1500)] + ([9999, 10000, rnd.randint(1001, 12000)] if big else []))
-        ap = [m, name, n, rnd.randint(0, 100), rnd.randint(0, 3), rnd.randint(0, n) if m == "svc" and rnd.random() < 0.7 else 0]
+        tn = rnd.choice([0, 0, 1, 3, 20])
+        tn = tn if tn <= n else 0
+        ap = [m, name, n, rnd.randint(0, 100), rnd.randint(0, 3), rnd.randint(0, n) if m == "svc" and rnd.random() < 0.7 else 0, tn, rnd.choice([1, 50, 700]) if tn else 0]
     rnd.shuffle(recs)
     return {"kind": "store", "sched": sched, "S": {"recs": recs, "ap": ap}}
 
